@@ -196,6 +196,8 @@ def run_srv(eng, case):
                         bs = Buffer.new_consecutive(n, 16, 1, s)
                         objs[2].extend(bs[:1])     # the first one owns the block in the allocator
                         out.append('buf ' + ','.join(str(x.bufnum) for x in bs))
+                elif w[0] == 'bufnc':
+                    b = Buffer(16, 1, s, cache=False); objs[2].append(b); out.append(f'bufnc {b.bufnum}')
                 elif w[0] == 'node':
                     out.append(f'node {s._next_node_id()}')
                 elif w[0] == 'free':
@@ -204,7 +206,11 @@ def run_srv(eng, case):
                         b = lst.pop(int(w[2]) % len(lst))
                         kind = type(b).__name__
                         idx = b.bufnum if kind == 'Buffer' else b.index
-                        b.free()
+                        try:
+                            b.free()
+                        except Exception as e:
+                            out.append(f'free {kind} {idx} RAISED:{type(e).__name__}')
+                            continue
                         dead[int(w[1])].append(b)
                         out.append(f'free {kind} {idx}')
                     else:
